@@ -458,12 +458,22 @@ func BuildCanon(prog *ssa.Program, fns []*ssa.Function) *Canon {
 				}
 			}
 		}
+		// only unexported helpers that are actually called are folded into their callers; anything else that is new
+		// (an exported entry point, a function nobody calls statically) is analysed on its own like reviewed code
+		for fn, ss := range c.sites {
+			exported := fn.Object() != nil && fn.Object().Exported()
+			if len(ss) == 0 || exported {
+				delete(c.sites, fn)
+			}
+		}
 		var names []string
 		for fn := range c.sites {
 			names = append(names, fn.String())
 		}
 		sort.Strings(names)
-		c.Notes = append(c.Notes, "functions that did not exist at review time are analysed as part of their callers: "+strings.Join(names, ", "))
+		if len(names) > 0 {
+			c.Notes = append(c.Notes, "functions that did not exist at review time are analysed as part of their callers: "+strings.Join(names, ", "))
+		}
 	}
 	canonMu.Lock()
 	canons[prog] = c
